@@ -60,6 +60,7 @@ def register(w):
             ("status-moves-along-allowed-edges", "status_reach(old(self.status), self.status)"), ("history-holds-states", HWF_X),
             ("exited-states-timers-and-services-re-armed", f"ghost:implies(final_exit_started and not final_in_rearm, forall[Node](lambda n: implies(n in old({A}) and n in final_exitset, final_rearmed[n])))")])
         CPN = "forall[int](lambda i: implies(0 <= i and i < len(combined_path), combined_path[i] != None))"
+        c.before("combined_path.append(step)", "assert step != None")     # a small lemma first: keeps the invariant step independent of solver luck
         c.loop(0, inv=[]).loop(1, inv=[])
         c.loop(2, inv=[CPN]).loop(3, inv=[CPN])
         c.loop(4, inv=["aborted and in_rearm and exit_started", f"set_eq({A}, old({A}))",
@@ -117,6 +118,7 @@ def register(w):
             # unless re-arming itself failed, every state whose timers were cancelled for the exit is re-armed
             ("exited-states-timers-and-services-re-armed", f"ghost:implies(final_exit_started and not final_in_rearm, forall[Node](lambda n: implies(n in old({A}) and n in final_exitset, final_rearmed[n])))")])
         CPN = "forall[int](lambda i: implies(0 <= i and i < len(combined_path), combined_path[i] != None))"
+        c.before("combined_path.append(step)", "assert step != None")     # a small lemma first: keeps the invariant step independent of solver luck
         c.loop(0, inv=[CPN]).loop(1, inv=[CPN])
         c.loop(2, inv=["aborted and in_rearm and exit_started",
                        f"set_eq({A}, old({A}))",
